@@ -7,6 +7,10 @@
 (* The spec keeps only the modular pair (a,b), updated by exact modular algebra, audits *)
 (* it against the definitional fold at every `new`, every 997th event and the end of   *)
 (* each run, and compares it with what both real types reported after the operation.   *)
+(* Marathon runs (tens of millions of slides) are not recorded slide by slide: at each  *)
+(* checkpoint the harness writes the bytes currently in the window as a fresh "data"    *)
+(* line followed by a "new" event that carries what the ROLLED checksums report; New    *)
+(* then compares those with the definition over that window.                            *)
 EXTENDS Naturals, Sequences, TLC, Json, IOUtils, SequencesExt
 
 M == 65521
